@@ -84,8 +84,10 @@ func selftestGen(o hreg.Opts, w *bufio.Writer) error {
 			extra += " mode=eth1"
 		}
 		fam := "rand"
-		if i%2 == 1 {
+		if i%3 == 1 {
 			fam = "rand2" // same base configuration with the "apart" ingredients mixed in
+		} else if i%3 == 2 {
+			fam = "rand3" // ... and the round-3 ingredients
 		}
 		line("chain %s:%d %d %d %d %s %s%s", fam, cs, nv, seed(), epochs*int(cfg.Spec.SLOTS_PER_EPOCH), bal[rng.Intn(len(bal))], PolicyNames[rng.Intn(len(PolicyNames))], extra)
 	}
